@@ -19,7 +19,11 @@ RULE = ("circuits: trees (nesting depth <= 2) over m <= 4 spatial modes mixing W
         "convert_polarized_state with the model (spatial input exact, preparation matrix 1e-6), "
         "SimulatorFactory.build(c[, Naive]).probs / .evolve and Processor.with_polarized_input + probs with the exact "
         "merged distribution of the model (1e-6; all outputs), exact mass 1, specification route = implementation "
-        "route on a sample, label table and label vectors. Non-trivial: an elliptical photon (both components "
+        "route on a sample, label table and label vectors; SESSIONS: one long-lived PolarizationSimulator (built "
+        "directly or by SimulatorFactory) receives a history of set_circuit / probs / evolve calls -- all-H and "
+        "un-annotated inputs, other polarisations, pairs, the vacuum, rejected inputs, repeats of earlier inputs, "
+        "circuit replacements -- and every answer is compared with the model of the stateful simulator (proved "
+        "history-independent), a fresh simulator deciding the signature. Non-trivial: an elliptical photon (both components "
         "non-zero, non-real phase) through a non-symmetric polarised matrix; distinct by (model tree, model input).")
 TRUSTED = ["model: coq/Model/Polar.v, PolarX.v over the exact field Q(i)(sqrt 2) (coq/Lib/Q2.v); amplitude specification "
            "= multiset permanent of C02 (Lib/Permanent.v) generalised to arbitrary columns (permC)",
@@ -586,7 +590,7 @@ def run(ctx):
             ctx.fail(sig, what, case, exp, obs)
 
     # ---------------------------------------------------------------- matrices
-    n_mat = ctx.n(200, 2000)
+    n_mat = ctx.n(150, 2000)
     trees = [Node(1, None, None, items=[], kind="sub"), Node(3, None, None, items=[], kind="sub")]
     trees += corpus_trees()
     for i in range(n_mat):
@@ -636,7 +640,7 @@ def run(ctx):
     ctx.streams["convert_polarized_state"] = len(convs)
 
     # ---------------------------------------------------------------- distributions
-    n_sim = ctx.n(220, 2000)
+    n_sim = ctx.n(160, 2000)
     sims = corpus_sims(labels)
     for i in range(n_sim):
         r = rng.fork(("sim", i))
@@ -678,6 +682,33 @@ def run(ctx):
             report("probs", fails, tree, spec, shrinker=lambda sig, t=tree, s=spec: shrink_tree(t, s, sim_probe, sig))
     ctx.streams["probs / evolve / Processor"] = len(prepared)
 
+    # ---------------------------------------------------------------- sessions: one long-lived simulator
+    n_sess = ctx.n(40, 500)
+    sessions = corpus_sessions(labels)
+    for i in range(n_sess):
+        sessions.append(rand_session(rng.fork(("sess", i)), labels, nmax))
+    n_q = 0
+    for ops in sessions:
+        fails, nq, info = run_session(ctx, ops, labels)
+        n_q += nq
+        ctx.case(["session", info["canon"]], info["nontrivial"], one_sample("session", info["nontrivial"], {"stream": "session", "history": describe_session(ops)}))
+        ctx.count("session.queries", nq)
+        for k, v in info["kinds"].items():
+            ctx.count("session." + k, v)
+        for sig, what, exp, obs, idx in fails:
+            case = {"stream": "session", "history": describe_session(ops), "failing_step": idx}
+            if sig not in reported:
+                try:
+                    ops2, f2 = shrink_session(ctx, ops, labels, sig)
+                    if f2 is not None:
+                        what, exp, obs = f2[1], f2[2], f2[3]
+                        case = {"stream": "session", "history": describe_session(ops2), "failing_step": f2[4], "shrunk": True}
+                except Exception as e:
+                    case["shrink_error"] = f"{type(e).__name__}: {e}"
+            reported.add(sig)
+            ctx.fail(sig, what, case, exp, obs)
+    ctx.streams["sessions (one simulator, histories of set_circuit / probs / evolve)"] = len(sessions)
+
     # specification route (one column U.jones per photon, input norm = prod (class size)!) = implementation route
     souts = ctx.model.run([(F_SPEC, [t.model(), model_input(rows)]) for (t, rows), _ in spec_sample])
     for ((t, rows), out), so in zip(spec_sample, souts):
@@ -701,6 +732,195 @@ def run(ctx):
     ctx.count("vm_compute_crosscheck", len(small))
     if a != b:
         ctx.fail("extraction-vs-vm_compute", "extracted runner and vm_compute disagree", {"n": len(small)})
+
+
+# ------------------------------------------------------------------ sessions
+def all_h_input(rng, m, labels, nmax):
+    """photons labelled H or without annotation: the preparation matrix is the identity"""
+    modes = [[] for _ in range(m)]
+    budget = rng.rint(1, nmax)
+    for k in rng.shuffle(range(m)):
+        if budget <= 0:
+            break
+        if rng.chance(1, 3):
+            continue
+        c = rng.rint(1, min(2, budget))
+        modes[k] = [None] * c if rng.chance(1, 3) else [labels["H"]] * c
+        budget -= c
+    if all(not md for md in modes):
+        modes[rng.below(m)] = [labels["H"]]
+    return InputSpec(modes)
+
+
+def rand_session(rng, labels, nmax):
+    m = rng.rint(1, 3)
+    ops = [("set", rand_tree(rng, m, need_polar=True))]
+    carrier = rng.choice(["PolarizationSimulator", "SimulatorFactory"])
+    prev = []
+    for j in range(rng.rint(4, 8)):
+        x = rng.below(20)
+        if x == 0 and j > 1:
+            ops.append(("set", rand_tree(rng, m, need_polar=True)))
+            continue
+        if x < 4 and prev:
+            spec = rng.choice(prev)
+        elif x < 10:
+            spec = all_h_input(rng, m, labels, nmax)
+        else:
+            spec = rand_input(rng, m, labels, nmax, rng.choice(["single"] * 5 + ["pair"] * 3 + ["bad", "vacuum"]))
+        prev.append(spec)
+        ops.append(("q", spec, "evolve" if rng.chance(1, 5) else "probs"))
+    return [("carrier", carrier)] + ops
+
+
+def describe_session(ops):
+    out = []
+    for o in ops:
+        if o[0] == "carrier":
+            out.append("one " + o[1])
+        elif o[0] == "set":
+            out.append("set_circuit(" + o[1].source()[:300] + ")")
+        else:
+            out.append(f"{o[2]}({o[1].string()})")
+    return out
+
+
+def run_session(ctx, ops, labels):
+    """-> (failures [(sig, what, exp, obs, step)], number of queries, info)"""
+    import perceval as pcvl
+    from perceval.backends import SLOSBackend
+    from perceval.simulators import PolarizationSimulator, Simulator, SimulatorFactory
+    carrier = ops[0][1]
+    steps = ops[1:]
+    req, states = [], []
+    for o in steps:
+        if o[0] == "set":
+            req.append([0, o[1].model()])
+            states.append(None)
+        else:
+            st = pcvl.BasicState(o[1].string())
+            rows = read_back(st, o[1], labels)
+            req.append([1, model_input(rows)])
+            states.append((st, rows))
+    outs = ctx.model.run([(1305, req)], jobs=1)[0]
+    fails = []
+    kinds = {}
+    sim = PolarizationSimulator(Simulator(SLOSBackend())) if carrier == "PolarizationSimulator" else None
+    cur = None
+    nontrivial = False
+    seen_h, seen_other_after_h = False, False
+    for idx, (o, out, sr) in enumerate(zip(steps, outs, states)):
+        if o[0] == "set":
+            cur = build(o[1].source())
+            if carrier == "PolarizationSimulator":
+                sim.set_circuit(cur)
+            else:
+                sim = SimulatorFactory.build(cur)
+            seen_h = seen_other_after_h = False
+            continue
+        st, rows = sr
+        all_h = all(p.key == "H" for row in rows for p in row)
+        kinds["all-H" if all_h else "polarised"] = kinds.get("all-H" if all_h else "polarised", 0) + 1
+        if all_h and seen_other_after_h:
+            nontrivial = True            # all-H, then another polarisation, then all-H again on the same object
+        if all_h:
+            seen_h = True
+        elif seen_h:
+            seen_other_after_h = True
+        how = o[2]
+
+        def call(obj):
+            try:
+                return ("ok", obj.probs(st) if how == "probs" else obj.evolve(st))
+            except Exception as e:
+                return (type(e).__name__, str(e))
+
+        def judge(res):
+            """None if the answer agrees with the model, else (what, exp, obs)"""
+            if out[0] == 2:
+                return None if res[0] == "ValueError" else ("input the model rejects was not rejected with ValueError", "ValueError", str(res)[:200])
+            if res[0] != "ok":
+                return (f"{how} raised {res[0]}: {res[1]}", "an answer", res[0])
+            if how == "probs":
+                pexp = {tuple(e[0]): un_p2(e[1]) for e in out[1]}
+                vals = {tuple(k): float(v) for k, v in res[1].items()}
+                bad = sorted(t for t in set(vals) | set(pexp) if abs(vals.get(t, 0.0) - pexp.get(t, 0.0)) > 1e-6)
+                if bad:
+                    t = bad[0]
+                    return ("distribution differs from the specification", f"{list(t)}: {pexp.get(t, 0.0)}", f"{list(t)}: {vals.get(t, 0.0)}")
+                return None
+            aexp = {tuple(e[0]): un_q2(e[1]) / math.sqrt(e[2]) for e in out[2]}
+            seen = {}
+            for s2, a in res[1]:
+                seen[spatial_of(s2)] = seen.get(spatial_of(s2), 0) + complex(a)
+            bad = sorted(t for t in set(seen) | set(aexp) if abs(seen.get(t, 0) - aexp.get(t, 0)) > 2e-6)
+            if bad:
+                t = bad[0]
+                return ("evolve amplitude differs from the specification", f"{list(t)}: {aexp.get(t, 0)}", f"{list(t)}: {seen.get(t, 0)}")
+            return None
+
+        j = judge(call(sim))
+        if j is not None:
+            fresh = judge(call(SimulatorFactory.build(cur)))
+            if fresh is None:
+                fails.append(("session:answer-depends-on-history", f"step {idx} of a history on one {carrier}: {j[0]}, while a fresh simulator on the same circuit and input agrees with it", j[1], j[2], idx))
+            else:
+                fails.append(("session:" + how, f"step {idx}: {j[0]} (a fresh simulator too)", j[1], j[2], idx))
+    nq = sum(1 for o in steps if o[0] == "q")
+    return fails, nq, {"canon": sx(req), "nontrivial": nontrivial, "kinds": kinds}
+
+
+def shrink_session(ctx, ops, labels, sig):
+    def has(o):
+        for f in run_session(ctx, o, labels)[0]:
+            if f[0] == sig:
+                return f
+        return None
+    best = None
+    changed = True
+    while changed:
+        changed = False
+        for i in range(len(ops) - 1, 1, -1):        # never the carrier nor the first set_circuit
+            o2 = ops[:i] + ops[i + 1:]
+            f = has(o2)
+            if f:
+                ops, best, changed = o2, f, True
+                break
+        if changed:
+            continue
+        for i, o in enumerate(ops):               # then fewer photons in the remaining inputs
+            if o[0] != "q":
+                continue
+            for k, md in enumerate(o[1].modes):
+                for j in range(len(md)):
+                    m2 = [list(x) for x in o[1].modes]
+                    del m2[k][j]
+                    o2 = ops[:i] + [("q", InputSpec(m2), o[2])] + ops[i + 1:]
+                    f = has(o2)
+                    if f:
+                        ops, best, changed = o2, f, True
+                        break
+                if changed:
+                    break
+            if changed:
+                break
+    return ops, best
+
+
+def corpus_sessions(labels):
+    """H, another polarisation, H again -- and unannotated photons -- on one simulator, both carriers"""
+    a, b = Ang(3, 4, 5), Ang(5, 12, 13)
+    pbs = Node(2, [0, 4], "PBS()", True, kind="PBS")
+    wp = Node(1, [0, 2, q2(a.cos), q2(a.sin), q2(b.cos), q2(b.sin)], f"WP({a.value!r}, {b.value / 2!r})", True, kind="WP")
+    qwp = Node(1, [0, 2, RH, RH, q2(b.cos), q2(b.sin)], f"QWP({b.value / 2!r})", True, kind="QWP")
+    t = Node(2, None, None, items=[(0, wp), (0, pbs), (1, qwp)], kind="sub")
+    H, V, D, L = labels["H"], labels["V"], labels["D"], labels["L"]
+    qs = [InputSpec([[H], [H]]), InputSpec([[D], [V]]), InputSpec([[H], [H]]), InputSpec([[None, None], []]),
+          InputSpec([[L], []]), InputSpec([[None], [H]]), InputSpec([[], []]), InputSpec([[H, V], []]), InputSpec([[H], [H]])]
+    out = []
+    for carrier in ("PolarizationSimulator", "SimulatorFactory"):
+        out.append([("carrier", carrier), ("set", t)] + [("q", q, "probs") for q in qs])
+    return out
 
 
 # ------------------------------------------------------------------ shrinking
